@@ -687,6 +687,15 @@ func (c *Ctx) checkProteinTables() {
 			}
 			return true
 		})
+		// the same dispatch written as a table `var t = map[int]func(){MODEL_X: XMats, …}` indexed in the function
+		if tab, rejects := c.lookupTableOf("models/protein", fd); len(tab) > 0 {
+			for k, v := range tab {
+				if _, dup := got[k]; !dup {
+					got[k] = v
+				}
+			}
+			hasDefault = hasDefault || rejects
+		}
 		for k, v := range want {
 			L.Check(got[k] == v, "protein-dispatch", "models/protein.NewProtModel", k, c.P.Pos(fd.Pos()), k+" → "+v, k+" is mapped to "+got[k]+", want "+v)
 		}
